@@ -70,3 +70,8 @@ Lemma qsum_scale s l : (qsum (map (Qmult s) l) == s * qsum l)%Q.
 Proof. unfold qsum. induction l as [|x l IH]; cbn [map fold_right]; [ring|]. rewrite IH. ring. Qed.
 Theorem cumsum_commutes_with_scaling s new ti : (running_sum (map (Qmult s) new) ti == s * running_sum new ti)%Q.
 Proof. unfold running_sum. rewrite firstn_map. apply qsum_scale. Qed.
+
+(* the hypothesis "infected agents are alive" of prevalence_range is needed: a module that does not clear its flags when agents die counts this step's dead
+   in the numerator (they are still among the active agents until the end of the step) while the denominator counts the living *)
+Lemma prevalence_above_one_refuted : exists infected alive au, (0 < count_state alive au)%nat /\ (1 < prevalence infected alive au)%Q.
+Proof. exists (fun _ => true), (fun u => Nat.eqb u 0), [0; 1; 2]%nat. split; [vm_compute; lia|]. vm_compute. reflexivity. Qed.
